@@ -384,6 +384,18 @@ func (fc *FuncCtx) coerce(st *State, v Val, to types.Type) *Term {
 	if v.T == nil {
 		if v.Loc != nil {
 			// pointer value escaping into a term: use a fresh address
+			if v.Loc.Kind == "local" && v.Loc.Sort != nil && v.Loc.Obj != nil && fc.closureScan().assignCnt[v.Loc.Obj] <= 3 {
+				// &local stored in the heap (x := ...; p.f = &x): a new cell holding the local's current value.
+				// (assignCnt counts the address-taking twice; the local must not be assigned again.)
+				if ev, ok := st.env[v.Loc.Obj]; ok && ev.T != nil && ev.T.Sort.Eq(v.Loc.Sort) {
+					a := fc.newRef(st, "addr")
+					key := fc.memKey(v.Loc.Sort)
+					arr := fc.heapArr(st, key, v.Loc.Sort)
+					st.heap[key] = fc.nameTerm(st, key, Store(arr, a, ev.T))
+					fc.note("address of a single-assignment local stored as a fresh cell holding its value")
+					return a
+				}
+			}
 			return fc.freshConst("addr", SV)
 		}
 		return fc.freshConst("val", ts)
